@@ -1,5 +1,5 @@
 CONSTANTS
-  Kinds = {"named_struct", "tuple_struct", "unit_struct", "enum", "union", "generic_struct", "alias", "const", "struct_len_if", "struct_len_block", "struct_len_index", "alias_union_path", "const_union_path"}
+  Kinds = {"named_struct", "tuple_struct", "unit_struct", "enum", "union", "generic_struct", "alias", "const", "struct_len_if", "struct_len_block", "struct_len_index", "alias_union_path", "const_union_path", "named_struct_via_macro"}
   OuterArgs = {"bare", "swift", "redacted"}
   Helpers = {"skip", "serialized_as", "lang", "stacked", "stacked_apart", "triple"}
   Mixes = {"none", "serde", "docs", "cfg_attr", "docs_after"}
